@@ -83,11 +83,8 @@ func families(quick bool) []family {
 	ab := func(i int) Sub { return Sub{A: vals[i/2], B: vals[i%2]} }
 	// A: name × every ordered items array of 0..3 elements over (k,v)
 	var a []Doc
-	for ni, nm := range vals {
-		for si, s := range seqs(4, 0, 3) {
-			if quick && si%2 != ni {
-				continue // quick tier: names alternate over the arrays instead of name × array
-			}
+	for _, nm := range vals {
+		for _, s := range seqs(4, 0, 3) {
 			d := Doc{Name: nm}
 			for _, i := range s {
 				d.Items = append(d.Items, kv(i))
@@ -97,10 +94,7 @@ func families(quick bool) []family {
 	}
 	// B: two sibling arrays: items multiset of 0..2 × tags multiset of 1..3
 	var b []Doc
-	for ni, nm := range vals {
-		if quick && ni > 0 {
-			break // quick tier: one name
-		}
+	for _, nm := range vals {
 		for _, is := range multisets(4, 0, 2) {
 			for _, ts := range multisets(2, 1, 3) {
 				d := Doc{Name: nm}
@@ -110,6 +104,13 @@ func families(quick bool) []family {
 				for _, t := range ts {
 					d.Tags = append(d.Tags, Tag{T: vals[t]})
 				}
+				if quick {
+					d.TagsFirst = len(b)%2 == 1 // quick tier: the two source orders alternate
+					b = append(b, d)
+					continue
+				}
+				b = append(b, d)
+				d.TagsFirst = true
 				b = append(b, d)
 			}
 		}
@@ -147,24 +148,18 @@ func families(quick bool) []family {
 			if quick && j < i {
 				continue // unordered pairs in the quick tier
 			}
-			if len(e1.ss)+len(e2.ss) > mc3(quick) {
-				continue // at most 2 (quick) / 3 second-level elements per parent
+			if len(e1.ss)+len(e2.ss) > 3 {
+				continue // at most 3 second-level elements per parent
 			}
 			d := Doc{Name: "y", Items: []Item{mkItem(e1), mkItem(e2)}}
 			if (i+j)%3 == 0 {
 				d.Tags = []Tag{{T: vals[(i+j)/3%2]}}
+				d.TagsFirst = (i+j)/6%2 == 1
 			}
 			c = append(c, d)
 		}
 	}
 	return []family{{"A", a}, {"B", b}, {"C", c}}
-}
-
-func mc3(quick bool) int {
-	if quick {
-		return 2
-	}
-	return 3
 }
 
 // ---------------------------------------------------------------------------------------------
@@ -293,7 +288,7 @@ func baseQueries(quick bool) []*Q {
 }
 
 // wrapped puts two-clause compounds in as a clause of a larger query (10 forms). Quick: the
-// compounds over ordered pairs of the six-leaf alphabet, wrapped with 4 leaves; thorough:
+// compounds over ordered pairs of the six-leaf alphabet, wrapped with 5 leaves; thorough:
 // the compounds over ordered pairs of all 12 leaves, wrapped with the six-leaf alphabet.
 func wrapped(quick bool) []*Q {
 	var inner qset
@@ -301,7 +296,7 @@ func wrapped(quick bool) []*Q {
 	wl := leaves6()
 	if quick {
 		il = leaves6()
-		wl = []*Q{T("name", "x"), T("items.k", "y"), T("items.subs.a", "x"), T("tags.t", "x")}
+		wl = []*Q{T("name", "x"), T("items.k", "y"), T("items.v", "y"), T("items.subs.a", "x"), T("tags.t", "x")}
 	}
 	for _, a := range il {
 		for _, b := range il {
@@ -437,7 +432,7 @@ func chk(err error) {
 	}
 }
 
-var ghost = Doc{Name: "x", Items: []Item{{K: "x", V: "x", Subs: []Sub{{"x", "x"}, {"y", "y"}}}, {K: "y", V: "y", Subs: []Sub{{"x", "y"}}}}, Tags: []Tag{{"x"}, {"y"}}}
+var ghost = Doc{TagsFirst: true, Name: "x", Items: []Item{{K: "x", V: "x", Subs: []Sub{{"x", "x"}, {"y", "y"}}}, {K: "y", V: "y", Subs: []Sub{{"x", "y"}}}}, Tags: []Tag{{"x"}, {"y"}}}
 
 func newMem(nested bool) bleve.Index {
 	idx, err := bleve.NewUsing("", Mapping(nested), scorch.Name, scorch.Name, nil)
@@ -494,7 +489,7 @@ type checker struct {
 	dbgMu sync.Mutex
 	dbg   map[string]int // outcome dump for debugging (C20_DEBUG_OUTCOMES=file)
 	advQ  sync.Map       // query text -> *Q: queries seen deviating under classAdvance
-	small []Doc          // Part Q documents occupying at most 4 internal documents, smallest first
+	small []Doc          // Part Q documents occupying at most 3 internal documents, smallest first
 	// searches in flight, for the hang watchdog
 	flight sync.Map // *inflight -> struct{}
 }
@@ -691,6 +686,9 @@ func (ck *checker) evalQ(c *corpus, b built, q *Q, score string, want []Tri) {
 				class = unexplainedClass(q, extra, layoutName[layout])
 			}
 		}
+		if class == classAdvance {
+			ck.advQ.LoadOrStore(q.String(), q)
+		}
 		d := c.docs[i]
 		ex := &example{cost: [3]int{q.nodes(), d.size(), len(q.String())}, key: q.String() + d.String() + score + layoutName[layout]}
 		if !ck.bk.improves(class, ex) {
@@ -703,9 +701,6 @@ func (ck *checker) evalQ(c *corpus, b built, q *Q, score string, want []Tri) {
 				"query_text": q.String(), "score": score, "expected_hit": want[i] == Yes, "observed_hit": got[id],
 				"how": "index the one document under the mapping of props/c20.Mapping(nested) (items, items.subs, tags mapped nested; keyword fields) and run the query"}
 		} else {
-			if class == classAdvance {
-				ck.advQ.Store(q.String(), q)
-			}
 			if class != classAdvance {
 				class += "+only-with-neighbours"
 			}
@@ -781,7 +776,7 @@ func partQ(r *mc.Run, ck *checker) {
 	}
 	for _, f := range fams {
 		for _, d := range f.docs {
-			if d.size() <= 4 {
+			if d.size() <= 3 {
 				ck.small = append(ck.small, d)
 			}
 		}
@@ -926,7 +921,7 @@ func partQ(r *mc.Run, ck *checker) {
 var versions = []Doc{
 	{Name: "x", Items: []Item{{K: "x", V: "x"}}},
 	{Name: "y", Items: []Item{{K: "x", V: "y"}, {K: "y", V: "x"}}, Tags: []Tag{{"x"}}},
-	{Name: "x", Items: []Item{{K: "y", V: "y"}, {K: "x", V: "y", Subs: []Sub{{"x", "y"}, {"y", "x"}}}, {K: "y", V: "x"}}, Tags: []Tag{{"y"}}},
+	{Name: "x", Items: []Item{{K: "y", V: "y"}, {K: "x", V: "y", Subs: []Sub{{"x", "y"}, {"y", "x"}}}, {K: "y", V: "x"}}, Tags: []Tag{{"y"}}, TagsFirst: true},
 }
 
 type op struct {
@@ -1368,8 +1363,8 @@ func Run(r *mc.Run) {
 		ck.dbg = map[string]int{}
 	}
 	r.Rule("Part Q (E2): every parent document of three cartesian families (A: name × every ordered items array of 0–3 elements over k,v ∈ {x,y}; " +
-		"B: name × items multiset of 0–2 × tags multiset of 1–3; C: items of 1–2 elements, each k ∈ {x,y} with a subs multiset over a,b ∈ {x,y}, ≤ " +
-		mc.Pick(r, "2", "3") + " second-level elements per parent" + mc.Pick(r, "; quick: one name per A/B array", "") + ") " +
+		"B: name × items multiset of 0–2 × tags multiset of 1–3 × source order {items first, tags first}" + mc.Pick(r, " (alternating)", "") + "; C: items of 1–2 elements (" + mc.Pick(r, "unordered", "ordered") + "), each k ∈ {x,y} with a subs multiset of 0–" +
+		mc.Pick(r, "2", "3") + " over a,b ∈ {x,y}, ≤ 3 second-level elements per parent) " +
 		"× {nested, non-nested} mapping × {one segment, four batches with a deleted ghost parent and updated / deleted-and-recreated parents} × score {default, none} " +
 		"× query trees over term clauses on name, items.k, items.v, items.subs.a, items.subs.b, tags.t with values {x,y}: every conjunction / disjunction (min 0..2) / " +
 		"boolean (every assignment of the clauses to must/should/must-not, should-min 0..2) over 1 and 2 clauses (ordered), over 3 clauses (" +
@@ -1414,7 +1409,9 @@ func Run(r *mc.Run) {
 		lap("part_H_disk")
 	}
 	ck.minimiseAdvance()
+	lap("minimise")
 	ck.bk.flush(r)
+	lap("flush")
 	if ck.dbg != nil {
 		var ks []string
 		for k, n := range ck.dbg {
@@ -1468,19 +1465,23 @@ func (ck *checker) minimiseAdvance() {
 		}
 		return a.String() < b.String()
 	})
-	if len(cand) > 6 {
-		cand = cand[:6]
+	if len(cand) > 40 {
+		cand = cand[:40]
 	}
 	for _, q := range cand {
-		for _, b := range ck.small {
+		// every b in parallel, each looking for its smallest a; the smallest b wins
+		found := make([]*example, len(ck.small))
+		ck.r.ParFor(len(ck.small), 0, func(bi int) {
+			b := ck.small[bi]
 			wb := Expect(q, b.tree(), true)
 			if wb == Either {
-				continue
+				return
+			}
+			ra := rawPredict(q, b.tree())
+			if !ra.ok {
+				return
 			}
 			for _, a := range ck.small {
-				if ck.r.Expired() {
-					return
-				}
 				idx := newMem(true)
 				chk(idx.Index("a", a.Data()))
 				chk(idx.Index("b", b.Data()))
@@ -1491,19 +1492,22 @@ func (ck *checker) minimiseAdvance() {
 				}
 				got, _, ok := ck.search(idx, true, "two-documents", q, 5+a.size()+b.size(), "", rep)
 				idx.Close()
-				if !ok || got["b"] == (wb == Yes) {
-					continue
-				}
-				if ra := rawPredict(q, b.tree()); !ra.ok || ra.parentHit == got["b"] {
+				if !ok || got["b"] == (wb == Yes) || ra.parentHit == got["b"] {
 					continue
 				}
 				dir := "missing from"
 				if got["b"] {
 					dir = "wrongly in"
 				}
-				ck.bk.mu.Lock()
-				ck.bk.m[classAdvance] = &example{replay: rep(),
+				found[bi] = &example{replay: rep(),
 					detail: fmt.Sprintf("[nested mapping] index a=%s, then b=%s; %s: parent b is %s the hits (reference: %v; raw-id combination also says %v)", a, b, q, dir, wb, wb)}
+				return
+			}
+		})
+		for _, ex := range found {
+			if ex != nil {
+				ck.bk.mu.Lock()
+				ck.bk.m[classAdvance] = ex
 				ck.bk.mu.Unlock()
 				return
 			}
